@@ -184,6 +184,16 @@ def generate(rng, tier):
             for _ in range(600 if quick else 20000):
                 nhs = [rng.choice(ALPHA) for _ in pres]
                 yield _main_case(rng, pres, nhs, rng.choice(ALPHA))
+    # consistent chains in every order, for every presence set (the write-ok side), some with big payloads
+    for pres, ok in sets:
+        if not ok or not pres:
+            continue
+        perms = list(itertools.permutations(pres))
+        if quick and len(perms) > 60:
+            perms = rng.sample(perms, 60)
+        for perm in perms:
+            for last in ALPHA + [6, 50, 135, 253]:
+                yield _main_case(rng, pres, _chain_nhs(pres, perm, last), SLOT_NUM[perm[0]], big=rng.random() < 0.1)
     # other numbers (ESP, mobility, ... and random) in random slots, big payloads
     for _ in range(1500 if quick else 40000):
         pres, ok = rng.choice(sets)
@@ -583,6 +593,38 @@ def oracle(c):
     except (ValueError, IndexError, TypeError, AttributeError, KeyError) as ex:
         out.append(("malformed-impl-output", {"impl": [str(x)[:200] for x in c.impl], "exception": repr(ex)}))
     return out
+
+
+def extra_coverage(cases):
+    """histograms for the evidence file: how the explored cases split"""
+    h = {"write_ok": 0, "write_err_not_referenced": 0, "write_err_hop_not_at_start": 0, "roundtrip_checked": 0,
+         "decode_ok": 0, "decode_err_len": 0, "decode_err_content": 0}
+    by_stream = {}
+    by_present = {}
+    for c in cases:
+        k = c.meta.get("k")
+        by_stream[c.meta.get("stream", k)] = by_stream.get(c.meta.get("stream", k), 0) + 1
+        if k == "main":
+            wr = c.impl[1] or ""
+            if wr.startswith("ok("):
+                h["write_ok"] += 1
+                if c.impl[3] and c.impl[3].startswith("ok("):
+                    h["roundtrip_checked"] += 1
+            elif "HopByHopNotAtStart" in wr:
+                h["write_err_hop_not_at_start"] += 1
+            elif "ExtNotReferenced" in wr:
+                h["write_err_not_referenced"] += 1
+            n = 6 - c.meta["exts"].split(",").count("-")
+            by_present[n] = by_present.get(n, 0) + 1
+        elif k == "slice":
+            r = c.impl[0] or ""
+            if r.startswith("ok("):
+                h["decode_ok"] += 1
+            elif r.startswith("err(len"):
+                h["decode_err_len"] += 1
+            elif r.startswith("err(content"):
+                h["decode_err_content"] += 1
+    return {"c12_outcomes": h, "c12_streams": by_stream, "c12_main_cases_by_present_headers": {str(k): v for k, v in sorted(by_present.items())}}
 
 
 _HINT = {
